@@ -169,8 +169,9 @@ fn pipe(mode: Mode) {
 	if rng.gen_bool(0.5) {
 		// in the visibility scenario a reader paused in the middle of a lookup is the interesting stall
 		let role = if mode == Mode::Vis && rng.gen_bool(0.4) { 5 } else { rng.gen_range(0..6u32) };
-		let at = if rng.gen_bool(0.5) { rng.gen_range(1..60u32) } else { rng.gen_range(1..600u32) };
-		let len = *[30u32, 200, 1000, 4000].get(rng.gen_range(0..4usize)).unwrap();
+		// a reader makes few lock acquisitions in all: pause it at one of them, and for long
+		let at = if role == 5 { rng.gen_range(1..90u32) } else if rng.gen_bool(0.5) { rng.gen_range(1..60u32) } else { rng.gen_range(1..600u32) };
+		let len = if role == 5 { *[1000u32, 4000].get(rng.gen_range(0..2usize)).unwrap() } else { *[30u32, 200, 1000, 4000].get(rng.gen_range(0..4usize)).unwrap() };
 		loom::stall::plan(role, at, len);
 		probe("stall_planned");
 	}
@@ -1096,8 +1097,8 @@ fn visx(iter_mode: bool, heavy: bool) {
 	if rng.gen_bool(if heavy { 0.7 } else { 0.4 }) {
 		// heavy: mostly the commit worker (0) or the log worker (2) falls behind
 		let role = if heavy && rng.gen_bool(0.7) { *[0u32, 2].get(rng.gen_range(0..2usize)).unwrap() } else if !heavy && rng.gen_bool(0.4) { 5 } else { rng.gen_range(0..6u32) };
-		let at = if rng.gen_bool(0.5) { rng.gen_range(1..60u32) } else { rng.gen_range(1..600u32) };
-		let len = *[30u32, 200, 1000, 4000].get(rng.gen_range(0..4usize)).unwrap();
+		let at = if role == 5 { rng.gen_range(1..90u32) } else if rng.gen_bool(0.5) { rng.gen_range(1..60u32) } else { rng.gen_range(1..600u32) };
+		let len = if role == 5 { *[1000u32, 4000].get(rng.gen_range(0..2usize)).unwrap() } else { *[30u32, 200, 1000, 4000].get(rng.gen_range(0..4usize)).unwrap() };
 		loom::stall::plan(role, at, len);
 		probe("stall_planned");
 	}
